@@ -336,7 +336,14 @@ impl<F: Float> Arithmetic<F> {
     ///
     pub fn sample_variance(&self) -> F {
         let mean = self.sample_mean();
-        (self.sum_sq.value() - mean * self.sum.value()) / F::from(self.count - 1).unwrap()
+        let variance =
+            (self.sum_sq.value() - mean * self.sum.value()) / F::from(self.count - 1).unwrap();
+        // the one-pass formula can round below zero on (nearly) constant data
+        if variance < F::zero() {
+            F::zero()
+        } else {
+            variance
+        }
     }
 
     ///
